@@ -133,6 +133,9 @@ func parse(byteData []byte) (*DisallowedCerts, error) {
 				err := errors.New("SST does not use ASN1 encoding")
 				return nil, err
 			}
+			if int64(len) > int64(bytesReader.Len()) {
+				return nil, errors.New("SST certificate entry is longer than the file")
+			}
 			certChain := make([]byte, len)
 			binary.Read(bytesReader, binary.LittleEndian, &certChain)
 			certs = append(certs, certChain)
